@@ -321,6 +321,24 @@ func textEdits(o *render.Out, r *prng.Rand) []edit {
 			}
 		case "number":
 			tok := string(d[s.Off:end])
+			// digit grouping around the first digit, the decimal point and the exponent marker (ints, floats, decimals)
+			if body := strings.TrimPrefix(tok, "-"); len(body) > 0 && body[0] >= '0' && body[0] <= '9' &&
+				!strings.HasPrefix(body, "0x") && !strings.HasPrefix(body, "0X") && !strings.HasPrefix(body, "0b") && !strings.HasPrefix(body, "0B") {
+				first := s.Off + len(tok) - len(body)
+				if body[0] != '0' || len(body) == 1 || body[1] < '0' || body[1] > '9' {
+					ins("leading-zero-then-underscore", first, "0_")
+				}
+				if i := strings.IndexByte(body, '.'); i > 0 {
+					ins("underscore-before-decimal-point", first+i, "_")
+					if i+1 < len(body) && body[i+1] >= '0' && body[i+1] <= '9' {
+						ins("underscore-after-decimal-point", first+i+1, "_")
+					}
+				}
+				if i := strings.IndexAny(body, "eEdD"); i > 0 {
+					ins("underscore-before-exponent-marker", first+i, "_")
+					ins("underscore-after-exponent-marker", first+i+1, "_")
+				}
+			}
 			switch s.Aux {
 			case 10:
 				digits := strings.TrimPrefix(tok, "-")
